@@ -9,6 +9,7 @@ import (
 	"fmt"
 	iocore "io"
 	"maps"
+	"math"
 	"math/big"
 	"sync"
 
@@ -192,12 +193,14 @@ func (dao *Simple) getTokenTransferLogKey(acc util.Uint160, newestTimestamp uint
 // the transfer with the newest timestamp up to the oldest transfer. It continues
 // iteration until false is returned from f. The last non-nil error is returned.
 func (dao *Simple) SeekNEP17TransferLog(acc util.Uint160, newestTimestamp uint64, f func(*state.NEP17Transfer) (bool, error)) error {
-	key := dao.getTokenTransferLogKey(acc, newestTimestamp, 0, false)
+	// Start from the last possible log of newestTimestamp: a backwards seek
+	// goes down from prefix+start itself, logs of this timestamp included.
+	key := dao.getTokenTransferLogKey(acc, newestTimestamp, math.MaxUint32, false)
 	prefixLen := 1 + util.Uint160Size
 	var seekErr error
 	dao.Store.Seek(storage.SeekRange{
 		Prefix:    key[:prefixLen],
-		Start:     key[prefixLen : prefixLen+8],
+		Start:     key[prefixLen:],
 		Backwards: true,
 	}, func(k, v []byte) bool {
 		lg := &state.TokenTransferLog{Raw: v}
@@ -214,12 +217,14 @@ func (dao *Simple) SeekNEP17TransferLog(acc util.Uint160, newestTimestamp uint64
 // the transfer with the newest timestamp up to the oldest transfer. It continues
 // iteration until false is returned from f. The last non-nil error is returned.
 func (dao *Simple) SeekNEP11TransferLog(acc util.Uint160, newestTimestamp uint64, f func(*state.NEP11Transfer) (bool, error)) error {
-	key := dao.getTokenTransferLogKey(acc, newestTimestamp, 0, true)
+	// Start from the last possible log of newestTimestamp: a backwards seek
+	// goes down from prefix+start itself, logs of this timestamp included.
+	key := dao.getTokenTransferLogKey(acc, newestTimestamp, math.MaxUint32, true)
 	prefixLen := 1 + util.Uint160Size
 	var seekErr error
 	dao.Store.Seek(storage.SeekRange{
 		Prefix:    key[:prefixLen],
-		Start:     key[prefixLen : prefixLen+8],
+		Start:     key[prefixLen:],
 		Backwards: true,
 	}, func(k, v []byte) bool {
 		lg := &state.TokenTransferLog{Raw: v}
